@@ -97,6 +97,11 @@ PROPS["C19"]["rule"] += ("; slice staking-det: a staking history (several delega
                          "and again on a fresh App 2, with a hash of the complete raw root storage after every op; predicate: both transcripts "
                          "including the hashes are identical")
 
+PROPS["C19"]["translators"] = ["scan_impure"]
+PROPS["C19"]["trusted_base"] = list(PROPS["C19"].get("trusted_base", [])) + [
+    "checklib/scan_impure.py (regex over comment-stripped non-test sources) lists static mut / thread_local! / lazily initialised or interior-mutable "
+    "statics / atomics / locks / RefCell / clocks / randomness / env / HashMap,HashSet / unsafe; theorem no_ambient_state_in_sources states the list is empty; "
+    "that safe Rust without these is a deterministic function of its inputs is assumed; dependencies are not scanned"]
 PROPS["C19"]["slices"].append({"name": "wasm-bech-mix", "quick": 1200, "thorough": 20000,
                                "predicate": "pred_c19_mix", "nontrivial": "nt_any"})
 PROPS["C19"]["rule"] += ("; slice wasm-bech-mix (instances of a different configuration in the same process): every case runs on fresh "
